@@ -1,18 +1,18 @@
 SPECIFICATION Spec
 CONSTANTS
-  Specs = {"r", "a", "b", "d", "j", "g", "m"}
-  WithItems = {"r", "a", "b"}
+  Specs = {"r", "a", "g", "j", "m"}
+  WithItems = {"r", "a", "g"}
   Big = {"r"}
   MaxRoot = 2
   MaxOther = 1
   Forms = {"static", "dynamic", "type"}
-  Targets = {"a", "b", "j", "g", "m"}
-  Sp1 = {"j"}
+  Targets = {"a", "g", "j", "m"}
+  Sp1 = {"g"}
   MayMiss = {"m"}
-  MayRedirect = {}
+  MayRedirect = {"a"}
   MayErr = {}
-  RootChoices <- Roots_r
-  SelfTypes <- ST_bd
+  RootChoices <- Roots_rg
+  SelfTypes <- ST_none
   TsTypes = {}
   JsonAttr = FALSE
   Emit = TRUE
